@@ -55,7 +55,7 @@ func init() {
 
 var Ops = []string{
 	"APPEND", "COPY", "MOVE", "EXPUNGE", "CREATE", "DELETE", "RENAME", "RENAME-INBOX", "SUBSCRIBE", "UNSUBSCRIBE",
-	"CONN-CREATE2", "CONN-UPDATE", "CONN-DELETE", "CONN-MOVE", "LOGOUT-PURGE", "STORE",
+	"CONN-CREATE2", "CONN-CREATE-KNOWN", "CONN-UPDATE", "CONN-DELETE", "CONN-MOVE", "LOGOUT-PURGE", "STORE",
 }
 
 func bigLiteral(key string) string {
@@ -155,6 +155,9 @@ func runCall(raw json.RawMessage) (any, error) {
 	if err != nil {
 		return nil, err
 	}
+	// From here on the remote side does not offer message literals any more: a cache file that goes missing must
+	// show up as a message that can not be fetched, not be healed silently by a re-download.
+	w.Users[0].Conn.ForgetLiterals()
 	h.Arm(p.Mode, p.At)
 	switch p.Op {
 	case "APPEND":
@@ -182,6 +185,11 @@ func runCall(raw json.RawMessage) (any, error) {
 		res.Status = o.C.Cmd("UNSUBSCRIBE m2").Status
 	case "CONN-CREATE2":
 		sp := vconn.Spec{Kind: "MessagesCreated", Msgs: []string{"c-n1", "c-n2"}, Keys: []string{"n1", "n2"}, Mboxes: []string{"0", "mb-m2"}}
+		res.Status = ack(w.Inject(0, sp))
+	case "CONN-CREATE-KNOWN":
+		// a batch that names a message the server already has (as every echo of an APPEND and every re-sync does)
+		// together with a new one
+		sp := vconn.Spec{Kind: "MessagesCreated", Msgs: []string{"c-a", "c-n1"}, Keys: []string{"a", "n1"}, Mboxes: []string{"mb-m2"}}
 		res.Status = ack(w.Inject(0, sp))
 	case "CONN-UPDATE":
 		sp := vconn.Spec{Kind: "MessageUpdated", Msg: "c-a", Key: "a2", Mboxes: []string{"0"}, Flags: []string{`\Seen`}}
@@ -327,11 +335,8 @@ func checkCall(raw json.RawMessage) (any, error) {
 		return &State{Problem: []string{"server does not start on the directories: " + err.Error()}}, nil
 	}
 	defer w.Shutdown()
-	// the remote still has every message (a lost cache file may be re-fetched)
-	c := w.Users[0].Conn
-	for id, key := range map[string]string{"c-a": "a", "c-b": "b", "c-big": "big", "c-c": "c", "c-n1": "n1", "c-n2": "n2", "rm1": "k1"} {
-		c.Messages[imap.MessageID(id)] = &vconn.RMessage{ID: imap.MessageID(id), Literal: literalOf(key), Flags: imap.NewFlagSet(), Mboxes: map[imap.MailboxID]bool{}}
-	}
+	// The restarted server's connector knows no message literals: a cache file that went missing can not be healed
+	// silently by a re-download, it shows up as a message that can not be fetched.
 	st, err := readState(w, nil)
 	if err != nil {
 		st.Problem = append(st.Problem, "read-back after restart failed: "+err.Error())
